@@ -637,7 +637,7 @@ class Table(JupyterMixin):
 
         measurement = Measurement(
             max(min_widths) if min_widths else 1,
-            max(max_widths) if max_widths else max_width,
+            max(max_widths) if max_widths else 1,
         ).with_maximum(max_width)
         measurement = measurement.clamp(
             None if column.min_width is None else column.min_width + padding_width,
